@@ -48,7 +48,8 @@ ProjFor(s) ==
 
 ResMatch(op, a0, b) ==
     LET a == IF IsWin THEN [a0 EXCEPT !.err = WinErr(@), !.info = [@ EXCEPT !.m = 0, !.u = 0, !.g = 0]] ELSE a0 IN
-    /\ a.err = b.err
+    \* (on a closed file a Windows-typed file system may answer with the Windows value ERROR_INVALID_HANDLE)
+    /\ (a.err = b.err \/ (IsWin /\ a.err = "CLOSED" /\ b.err = "WIN"))
     /\ (a.err \in {"ok", "EOF"} \/ (op = "walk" /\ a.err = "ECALLBACK")) =>
         CASE op \in {"stat", "lstat", "fstat"} ->
                 IF Orefa(Impl) THEN [a.info EXCEPT !.u = 0, !.g = 0] = b.info ELSE a.info = b.info
